@@ -93,7 +93,7 @@ var durVars = []string{"recv-timeout", "send-interval", "send-delay", "req-inter
 
 var rejects = []string{"two-protocols", "no-protocol", "no-address", "data-and-file", "data-twice", "file-twice", "two-formats",
 	"format-flag-and-format", "bad-format", "subscribe-without-sub", "cert-twice", "key-twice", "missing-data-file",
-	"missing-cacert-file", "missing-cert-file", "tls-bind-no-cert", "tls-connect-no-ca", "push-no-data", "pub-no-data", "missing-value"}
+	"missing-cacert-file", "missing-cert-file", "tls-bind-no-cert", "tls-connect-no-ca", "push-no-data", "pub-no-data", "missing-value", "payload-twice-empty-first"}
 
 func TestC20(t *testing.T) {
 	r := mon.NewRunner(t, "C20")
@@ -145,7 +145,7 @@ func TestC20(t *testing.T) {
 	}
 	for i := 0; i < nSend; i++ {
 		add(c20Spec{Kind: "send", Proto: sendProtos[(i+off)%2], Tr: trs[rnd.Intn(2)], AForm: rnd.Intn(nAddrForms),
-			N: 1 + rnd.Intn(3), IForm: rnd.Intn(nZeroForms + 2), DLen: pickLen(rnd), DCls: rnd.Intn(nBodyClasses), DForm: rnd.Intn(nDataForms)})
+			N: rnd.Intn(4), IForm: rnd.Intn(nZeroForms + 2), DLen: pickLen(rnd), DCls: rnd.Intn(nBodyClasses), DForm: rnd.Intn(nDataForms)})
 	}
 	for i := 0; i < nDur; i++ {
 		dv := durVals[rnd.Intn(len(durVals))]
@@ -168,7 +168,7 @@ func TestC20(t *testing.T) {
 		all := []string{"push", "pub", "req", "surveyor", "pair", "bus", "star", "pull", "sub", "rep", "respondent"}
 		sp.Proto = all[rnd.Intn(len(all))]
 		switch sp.Var {
-		case "data-and-file", "data-twice", "file-twice", "missing-data-file":
+		case "data-and-file", "data-twice", "file-twice", "missing-data-file", "payload-twice-empty-first":
 			sp.Proto = all[rnd.Intn(7)]
 		case "push-no-data":
 			sp.Proto = "push"
@@ -738,7 +738,7 @@ func runSend(c *mon.Case, sp c20Spec) {
 	// within the contract of these patterns and is only counted.
 	c.Count("besteffort_asked", sp.N)
 	c.Count("besteffort_arrived", got)
-	if got > 0 {
+	if got > 0 || sp.N == 0 {
 		c.Nontrivial()
 	}
 	c.Sig("send|%s|%s|n=%d|i%d|%s|%s|arrived=%d", sp.Proto, sp.Tr, sp.N, sp.IForm, dname, lenClass(len(data)), got)
@@ -918,6 +918,16 @@ func runReject(c *mon.Case, sp c20Spec) {
 		f1, _, _ := dataArgs(c, 5, 3, 5)
 		f2, _, _ := dataArgs(c, 5, 3, 7)
 		groups = [][]string{proto, addr, f1, f2}
+	case "payload-twice-empty-first":
+		// the first payload is given and empty (an empty message is a legal payload), the second conflicts with it
+		var first []string
+		if c.Rand.Intn(2) == 0 {
+			first = [][]string{{"--data", ""}, {"--data="}, {"-D", ""}}[c.Rand.Intn(3)]
+		} else {
+			first, _, _ = dataArgs(c, 0, 3, 5+c.Rand.Intn(4)) // an empty file
+		}
+		second, _, _ := dataArgs(c, 1+c.Rand.Intn(20), 3, []int{0, 1, 2, 5, 6, 7}[c.Rand.Intn(6)])
+		groups = [][]string{proto, addr, append(append([]string{}, first...), second...)}
 	case "two-formats":
 		a, b := c.Rand.Intn(4), c.Rand.Intn(4)
 		extra = [][]string{{"--recv-timeout", "200ms"}, {"--" + formats[a]}, {"--" + formats[b]}}
